@@ -137,6 +137,7 @@ def run_workers(binp, prop, tier, seed, total, sweep_max, budget_s, tmp, race=Fa
     running = []
     outs = []
     pending = list(tasks)
+    spans = {w: (frm, cnt) for (w, frm, cnt) in tasks}
 
     def reap(block):
         for item in list(running):
@@ -159,6 +160,13 @@ def run_workers(binp, prop, tier, seed, total, sweep_max, budget_s, tmp, race=Fa
                 o = json.load(f)
             o["_log"] = os.path.join(tmp, "w%d.log" % w)
             outs.append(o)
+            frm, cnt = spans[w]
+            nxt = o.get("next_idx", frm + cnt)
+            if frm < nxt < frm + cnt:
+                # the worker retired early (memory): a fresh process does the rest
+                w2 = len(spans)
+                spans[w2] = (nxt, frm + cnt - nxt)
+                pending.insert(0, (w2, nxt, frm + cnt - nxt))
             if block:
                 return
 
